@@ -357,5 +357,6 @@ pub fn run(e: &'static Engine) {
         }));
     }
     e.par(jobs);
+    super::common::extreme_parts(e, |c, fam, o| check_pre(c, (c.input.len() % 5) as u8, fam, o));
     e.set_exhaustive(false, "all 160 (version, level) pairs x all 8 candidates per build; payloads are sampled");
 }
